@@ -44,6 +44,7 @@ type Eng struct {
 	objTypes   *ObjTypes
 	watch      []string
 	findings   []*Finding
+	traceCalls bool
 	globalInvs map[string][]Clause // package path -> package-level invariants
 }
 
@@ -269,6 +270,23 @@ func load(repo, verifDir string, patterns []string) (*Eng, error) {
 			continue
 		}
 		e.fnByKey[e.fnKey(fn)] = fn
+	}
+	// instantiated generics and other callees reached only through calls
+	for fn := range ssautil.AllFunctions(prog) {
+		if fn.Pkg == nil || !strings.HasPrefix(fn.Pkg.Pkg.Path(), modPath) {
+			continue
+		}
+		for _, b := range fn.Blocks {
+			for _, in := range b.Instrs {
+				if c, ok := in.(ssa.CallInstruction); ok {
+					if sf := c.Common().StaticCallee(); sf != nil {
+						if k := e.fnKey(sf); e.fnByKey[k] == nil {
+							e.fnByKey[k] = sf
+						}
+					}
+				}
+			}
+		}
 	}
 	e.collectObjTypes()
 	// contract files: comment-only verif_contracts.go in repo packages
